@@ -57,6 +57,7 @@ def run(rep: Report) -> None:
              "simplified sigma^2", floor=4)
     rep.rule("R14.6", "Measurement.__init__ stores the measurand and abs(uncertainty) (a number being put in the measurand's unit) and nothing else", floor=2)
     rep.rule("R14.7", "Quantity's binary operators return NotImplemented for a Measurement operand (the reflected Measurement method decides)", floor=4)
+    rep.rule("R07.9", "no assert in the package does part of the computation (python -O would drop it: sigma would be computed differently in optimised mode) - shared with C07", floor=1)
     rep.rule("R14.4", "the uncertainty is stored as abs(.) on every path of Measurement.__init__", floor=1)
     rep.rule("R14.5", "inventory: binary dunders that begin with the literal coercion Measurement(other, 0); the behaviour (a plain quantity acts as sigma = 0) is decided by R14.2 on the Quantity arm", armed=False, floor=13)
     for qual, kind in OPS.items():
@@ -218,5 +219,7 @@ def run(rep: Report) -> None:
         rep.check("R14.5", f"Measurement.{d}", ok, f"{qs[0]} does not begin by coercing a Quantity operand to "
                   "Measurement(other, 0): a plain quantity would not behave as a measurement with zero uncertainty", fi.where())
     rep.assume("in_unit is value-preserving (C04); Quantity operators are as specified (C03/C06)")
+    from .c07 import effect_free_asserts
+    effect_free_asserts(rep, prog, resolver, "R07.9")
     rep.not_decided.append("floating-point rounding of the (algebraically verified) formulas")
     rep.trust("mypy 2.3.1 expression types; E4 normal forms incl. sqrt/abs heads (sa/poly.py, sa/absint.py)")
